@@ -28,6 +28,7 @@ import (
 	"context"
 	"flag"
 	"fmt"
+	"io"
 	"os"
 	"os/exec"
 	"path/filepath"
@@ -383,8 +384,32 @@ func (w *world) kindOps(kind string, k int) []string {
 	err := lib.Safely(func() error {
 		switch kind {
 		case "stream":
+			// every way of reading a stream-backed node, readers of one's own kept alive across the others' calls
 			b, e := w.stream.AsBytes()
-			add(errStr(e) + strconv.Itoa(len(b)))
+			add(errStr(e) + lib.Hex(string(b)))
+			rd, e := w.stream.(datamodel.LargeBytesNode).AsLargeBytes()
+			add(errStr(e))
+			buf := make([]byte, 3)
+			k, _ := io.ReadFull(rd, buf)
+			add(lib.Hex(string(buf[:k])))
+			pos, e := rd.Seek(0, io.SeekEnd)
+			add(errStr(e) + strconv.FormatInt(pos, 10))
+			pos, e = rd.Seek(2, io.SeekStart)
+			add(errStr(e) + strconv.FormatInt(pos, 10))
+			rest, e := io.ReadAll(rd)
+			add(errStr(e) + lib.Hex(string(rest)))
+			sel, e := selector.CompileSelector(ssb.MatcherSubset(1, 5).Node())
+			add(errStr(e))
+			e = traversal.WalkAdv(w.stream, sel, func(_ traversal.Progress, n datamodel.Node, why traversal.VisitReason) error {
+				if why == traversal.VisitReason_SelectionMatch {
+					sb, se := n.AsBytes()
+					add(errStr(se) + lib.Hex(string(sb)))
+				}
+				return nil
+			})
+			add(errStr(e))
+			b, e = w.stream.AsBytes()
+			add(errStr(e) + lib.Hex(string(b)))
 		case "bindviews":
 			for i, n := range w.nodes {
 				add(dumpStr(n))
@@ -565,7 +590,7 @@ func classify(report string) string {
 		return "race_bindnode_default_typesystem"
 	case has("traversal.(*Config).init"):
 		return "race_traversal_config_init"
-	case has("basicnode.streamBytes.AsBytes") || has("basicnode.streamBytes.Read") || (has("bytes.(*Reader).Read") && has("basicnode")):
+	case has("basicnode.(*streamCursor)") || has("basicnode.streamBytes.AsBytes") || has("basicnode.streamBytes.Read") || (has("bytes.(*Reader).Read") && has("basicnode")):
 		return "race_streambytes_reader"
 	}
 	// an unknown race: name it after the first library frame so that it is reported as a new class
